@@ -105,6 +105,20 @@ theorem queue_locks :
     LinkedList.facts.methods.all (fun M => M.fieldCallsHeld.isEmpty && M.fieldCallsFree.isEmpty && M.callbacksHeld.isEmpty) = true ∧
     (RequestQueue.facts.methods.flatMap (·.callbacksHeld)).eraseDups = ["Failed", "Overflowed"] := by decide
 
+/-- no method of a lock-bearing type has a value receiver (a call would copy the mutex) -/
+theorem no_value_receivers :
+    all.all (fun T => (valueReceivers T).isEmpty) = true := by decide
+
+/-- no method that takes only a read lock writes the structure, itself or through a callee
+    (`GetLRU` re-chains the entry: it is a writer) -/
+theorem no_write_under_read_lock :
+    all.all (fun T => (writersUnderReadLock T).isEmpty) = true := by decide
+
+/-- no method holds another instance's lock while taking the receiver's (`a.PutAll(b)` ∥ `b.PutAll(a)`
+    would deadlock on lock order, `m.PutAll(m)` on the lock itself) -/
+theorem no_cross_instance_lock_order :
+    all.all (fun T => (crossInstanceLockers T).isEmpty) = true := by decide
+
 /-- what remains unlocked is confined to enumerator constructors / serializers (outside the
     property's quantifier over point operations; noted, not judged) -/
 theorem unlocked_only_outside_point_ops :
